@@ -182,3 +182,9 @@ Qed.
 (* encodings used by the observation functions *)
 Definition optN (o : option nat) : N :=
   match o with None => 0%N | Some w => N.of_nat (S w) end.
+
+Lemma flat_map_ext_in {A B} (f g : A -> list B) l :
+  (forall a, In a l -> f a = g a) -> flat_map f l = flat_map g l.
+Proof.
+  induction l as [|h t IH]; simpl; auto. intros H. rewrite H by auto. f_equal. apply IH. auto.
+Qed.
